@@ -161,6 +161,36 @@ func runC18(c *core.Ctx) {
 			}
 		}
 	}
+	// trust reconfiguration on one long-lived SP (key roll-over, metadata refresh, pin set / removed): every logout
+	// response is judged against the roots configured at the moment it is validated
+	for i := 0; i < c.Pick(60, 3000); i++ {
+		if !mine() {
+			continue
+		}
+		sp := so.NewSP("meta-two-signing", fx.K("sp_rsa2048"))
+		roots, mode, how := []string{"idp_s1", "idp_s2"}, "meta", "initial"
+		var retired []string
+		for s := 0; s < 5+c.Rng.Intn(5); s++ {
+			if s > 0 {
+				roots, retired, mode, how = trustReconfigure(c, sp, roots, retired)
+			}
+			c.Observe("c18_reconfigurations", how)
+			for d := 1 + c.Rng.Intn(3); d > 0; d-- {
+				k := base()
+				k.trust = so.Trust{Name: fmt.Sprintf("rotating(%s:%s via %s, step %d)", mode, strings.Join(roots, "+"), how, s), Roots: roots}
+				switch r := c.Rng.Intn(5); {
+				case r < 2 && len(retired) > 0:
+					k.signer = retired[c.Rng.Intn(len(retired))]
+					c.Count("logout_responses_signed_by_retired_key")
+				case r < 4:
+					k.signer = roots[c.Rng.Intn(len(roots))]
+				default:
+					k.signer = signers[c.Rng.Intn(len(signers))]
+				}
+				c18Run(c, o, map[string]*saml.ServiceProvider{k.trust.Name: sp}, actx, k, 0)
+			}
+		}
+	}
 	// attacked
 	n := c.Pick(9000, 250000)
 	for i := 0; i < n; i++ {
@@ -343,7 +373,11 @@ func c18Run(c *core.Ctx, o *so.Oracle, sps map[string]*saml.ServiceProvider, act
 			if k.signer == "" {
 				why = append(why, "unsigned")
 			} else if !trusted[k.signer] {
-				why = append(why, "signer="+k.signer+"/"+k.trust.Name)
+				tn := k.trust.Name
+				if strings.HasPrefix(tn, "rotating(") {
+					tn = "rotating"
+				}
+				why = append(why, "signer="+k.signer+"/"+tn)
 			}
 			if !isOK(k.dest) {
 				why = append(why, "Destination="+k.dest.kind)
